@@ -233,7 +233,7 @@ package eventbus
 //@     (forall t type, i int :: {s.handlers[t][i]} 0 <= i && i < len(s.handlers[t]) ==> s.handlers[t][i] != nil && regTyped(s.handlers[t][i], t))
 //@ lockinv shard.mu(s) [RegInv.distinct] {C01,C02,C04} forall t type, i int, j int :: {s.handlers[t][i], s.handlers[t][j]} 0 <= i && i < j && j < len(s.handlers[t]) ==> s.handlers[t][i] != s.handlers[t][j]
 //@ lockinv shard.mu(s) [RegInv.elems] {C01,C02,C04} forall t type, i int :: {s.handlers[t][i]} 0 <= i && i < len(s.handlers[t]) ==> allocated(s.handlers[t][i]) && shared(s.handlers[t][i])
-//@ lockinv shard.mu(s) [RegInv.disjoint] {C01,C02} forall t1 type, t2 type :: t1 != t2 && sarr(s.handlers[t1]) != 0 ==> sarr(s.handlers[t1]) != sarr(s.handlers[t2])
+//@ lockinv shard.mu(s) [RegInv.disjoint] {C01,C02} forall t1 type, t2 type :: {s.handlers[t1], s.handlers[t2]} t1 != t2 && sarr(s.handlers[t1]) != 0 ==> sarr(s.handlers[t1]) != sarr(s.handlers[t2])
 //@ lockinv shard.mu(s) [RegInv.alloc] {C01,C02} forall t type :: wfslice(s.handlers[t]) && (sarr(s.handlers[t]) == 0 || allocated(sarr(s.handlers[t])))
 
 // Subscribe options: the only values of this type are nil and the four
@@ -261,7 +261,9 @@ package eventbus
 //@ def idMap(x, k) k
 //@ def kpStep(kp, i, found, m) ite(found && kp[m] > i, kp[m] - 1, kp[m])
 //@ def koStep(ko, i, found, k) ite(found && k >= i, ko[k + 1], ko[k])
-//@ def rmAlive(m) (forall q int :: {onceHandlersToRemove[q]} 0 <= q && q <= rangeindex__2 ==> acqat(shard.handlers[eventType], m) != onceHandlersToRemove[q])
+//@ def zeroMap(x, k) 0
+//@ def deadStep(dead, kp, i, found, m) ite(found && dead[m] == 0 && kp[m] == i, 1, dead[m])
+//@ def deadByStep(deadBy, dead, kp, i, found, j, m) ite(found && dead[m] == 0 && kp[m] == i, j, deadBy[m])
 //@ func PublishContext
 //@   props C01 C04 C05 C06 C08 C20 C09
 //@   requires bus != nil && ctx != nil && BusInv(bus) && PersistInv(bus)
@@ -331,21 +333,28 @@ package eventbus
 // was at Lock is now; ko[k] = which element of that list is now at position k.
 //@   loop 2 ghost kp intmap := arrayOf(idMap, int, 0)
 //@   loop 2 ghoststep kp := arrayOf(kpStep, int, kp, i, len(handlers__2) == iterold(len(handlers__2)) - 1)
+//@   loop 2 ghost dead intmap := arrayOf(zeroMap, int, 0)
+//@   loop 2 ghoststep dead := arrayOf(deadStep, int, dead, kp, i, len(handlers__2) == iterold(len(handlers__2)) - 1)
+//@   loop 2 ghost deadBy intmap := arrayOf(zeroMap, int, 0)
+//@   loop 2 ghoststep deadBy := arrayOf(deadByStep, int, deadBy, dead, kp, i, len(handlers__2) == iterold(len(handlers__2)) - 1, rangeindex__2)
 //@   loop 2 ghost ko intmap := arrayOf(idMap, int, 0)
 //@   loop 2 ghoststep ko := arrayOf(koStep, int, ko, i, len(handlers__2) == iterold(len(handlers__2)) - 1)
 //@   loop 2 invariant [C01.rm.subset] {C01,C02} forall k int :: {handlers__2[k]} 0 <= k && k < len(handlers__2) ==>
 //@        0 <= ko[k] && ko[k] < len(acq(shard.handlers[eventType])) && handlers__2[k] == acqat(shard.handlers[eventType], ko[k]) && (k > 0 ==> ko[k - 1] < ko[k])
-//@   loop 2 invariant [C01.rm.kept] {C01,C02} forall m int :: {acqat(shard.handlers[eventType], m)} 0 <= m && m < len(acq(shard.handlers[eventType])) && rmAlive(m) ==>
+//@   loop 2 invariant [C01.rm.kept] {C01,C02} forall m int :: {kp[m]} 0 <= m && m < len(acq(shard.handlers[eventType])) && dead[m] == 0 ==>
 //@        0 <= kp[m] && kp[m] < len(handlers__2) && handlers__2[kp[m]] == acqat(shard.handlers[eventType], m)
-//@   loop 2 invariant [C01.rm.order] {C01,C02} forall m1 int, m2 int :: {kp[m1], kp[m2]} 0 <= m1 && m1 < m2 && m2 < len(acq(shard.handlers[eventType])) && rmAlive(m1) && rmAlive(m2) ==> kp[m1] < kp[m2]
+//@   loop 2 invariant [C01.rm.order] {C01,C02} forall m1 int, m2 int :: {kp[m1], kp[m2]} 0 <= m1 && m1 < m2 && m2 < len(acq(shard.handlers[eventType])) && dead[m1] == 0 && dead[m2] == 0 ==> kp[m1] < kp[m2]
+//@   loop 2 invariant [C01.rm.dead] {C01,C02} forall m int :: {dead[m]} 0 <= m && m < len(acq(shard.handlers[eventType])) && dead[m] != 0 ==>
+//@        0 <= deadBy[m] && deadBy[m] <= rangeindex__2 && onceHandlersToRemove[deadBy[m]] == acqat(shard.handlers[eventType], m)
 //@   loop 2 invariant [rm.R.stable] seqeq(onceHandlersToRemove, loopentry(onceHandlersToRemove)) && sarr(onceHandlersToRemove) != sarr(handlers__2)
 //@   loop 3 invariant [idx3] rangeindex__3 < len(handlers__2) && -1 <= rangeindex__3
 //@   loop 3 invariant [rm.nomatch] forall k int :: {handlers__2[k]} 0 <= k && k <= rangeindex__3 ==> handlers__2[k] != onceHandler
 //@   loop 3 invariant [rm.inner.stable] handlers__2 == loopentry(handlers__2) && seqeq(handlers__2, loopentry(handlers__2))
 //@   ensures [C04.rm.section] {C04,C01} cnt(lockShard) == 1 + ite(len(onceHandlersToRemove) > 0, 1, 0) && cnt(unlockShard) == cnt(lockShard)
-//@   at unlock:shard.mu#W1 assert [C01.rm.kept.final] {C01,C02} forall m int :: {acqat(shard.handlers[eventType], m)} 0 <= m && m < len(acq(shard.handlers[eventType])) &&
+//@   at unlock:shard.mu#W1 assert [C01.rm.kept.final] {C01,C02} forall m int :: {kp[m]} 0 <= m && m < len(acq(shard.handlers[eventType])) &&
 //@        (forall q int :: {onceHandlersToRemove[q]} 0 <= q && q < len(onceHandlersToRemove) ==> acqat(shard.handlers[eventType], m) != onceHandlersToRemove[q]) ==>
 //@        0 <= kp[m] && kp[m] < len(shard.handlers[eventType]) && shard.handlers[eventType][kp[m]] == acqat(shard.handlers[eventType], m)
+//@   at unlock:shard.mu#W1 assert [C01.rm.order.final] {C01,C02} forall m1 int, m2 int :: {kp[m1], kp[m2]} 0 <= m1 && m1 < m2 && m2 < len(acq(shard.handlers[eventType])) && dead[m1] == 0 && dead[m2] == 0 ==> kp[m1] < kp[m2]
 //@   at unlock:shard.mu#W1 assert [C01.rm.subset.final] {C01,C02} forall k int :: {shard.handlers[eventType][k]} 0 <= k && k < len(shard.handlers[eventType]) ==>
 //@        0 <= ko[k] && ko[k] < len(acq(shard.handlers[eventType])) && shard.handlers[eventType][k] == acqat(shard.handlers[eventType], ko[k]) && (k > 0 ==> ko[k - 1] < ko[k])
 //@   at unlock:shard.mu#W1 assert [C04.rm.retired] {C04,C01} forall q int, k int :: {onceHandlersToRemove[q], shard.handlers[eventType][k]} 0 <= q && q < len(onceHandlersToRemove) && 0 <= k && k < len(shard.handlers[eventType]) ==>
@@ -909,7 +918,7 @@ package eventbus
 //@ event applyCall := call (*upcastRegistry).apply
 //@ event replayCall := call (*EventBus).Replay
 //@ def firstUp(r, t) ite(len(r.upcasters[t]) > 0, r.upcasters[t][0].Upcast, 0)
-//@ lockinv upcastRegistry.mu(r) [UpInv.disjoint] {C16,C17} forall t1 string, t2 string :: t1 != t2 && sarr(r.upcasters[t1]) != 0 ==> sarr(r.upcasters[t1]) != sarr(r.upcasters[t2])
+//@ lockinv upcastRegistry.mu(r) [UpInv.disjoint] {C16,C17} forall t1 string, t2 string :: {r.upcasters[t1], r.upcasters[t2]} t1 != t2 && sarr(r.upcasters[t1]) != 0 ==> sarr(r.upcasters[t1]) != sarr(r.upcasters[t2])
 //@ lockinv upcastRegistry.mu(r) [UpInv.alloc] {C16,C17} forall t string :: wfslice(r.upcasters[t]) && (sarr(r.upcasters[t]) == 0 || allocated(sarr(r.upcasters[t])))
 //@ lockinv upcastRegistry.mu(r) [UpInv.fn] {C16,C17} forall t string, i int :: {r.upcasters[t][i]} 0 <= i && i < len(r.upcasters[t]) ==> r.upcasters[t][i].Upcast != nil
 
